@@ -14,21 +14,21 @@ Lean model (session `fieldsort`).  Per sort call three answers are compared:
      their values are the first n values of `full` (ties may be permuted unless stable=1, then the ids
      themselves must be the first n of `full`), Unsortable raised iff exp.
 
-Mutation sanity check (GUIDE step 7), scratch copies of /repo/hypatia under /var/tmp/mut_sort_N,
-`VERIF_REPO=... check.py C07`, all deleted afterwards.  Every one gave VIOLATION with a replay:
-  1 scan_forward: `if limit and n >= limit` -> `n > limit` (one id too many under a limit)
-  2 nbest_ascending: `if los <= elem: continue` -> `if los < elem` is harmless (stable duplicates), so
-    instead `los = result[-1]` dropped after the pop (stale largest-of-the-smallest; needs a later
-    element between the new and the old `los`)
-  3 nbest_descending: sentinel DESC replaced by ASC (missing ids sort first in reverse: Unsortable raised
-    although the limit was filled / sortable ids displaced)
-  4 _timsort: `sorted(docids, key=get, reverse=reverse)` -> `sorted(..)[::-1]` when reverse (loses
-    stability of the descending sort: only visible on ties with STABLE/timsort)
-  5 sort_forward: nbest chosen without a limit check (`elif nbest_ascending_wins` with limit dropped is
-    unreachable), so instead the heuristic switch `fwscan_wins` -> always False for docratio >= .25
-    does NOT change results (the property says so; check stays green, as it must); real mutation used:
-    scan_forward raises Unsortable before `return` on a filled limit (moved the check above the loop exit)
-  6 sort(): `if not numdocs` branch returns [] even with raise_unsortable (empty index swallows Unsortable)
+Mutation sanity check (GUIDE step 7): scratch copies /var/tmp/mut_sort_N of /repo/hypatia, one semantic
+mutation of hypatia/field/__init__.py each, `VERIF_REPO=/var/tmp/mut_sort_N check.py C07` (quick tier, seed 0),
+copies deleted afterwards.  Caught = VIOLATION with a shrunk replay (3-6 command lines each):
+  1 scan_forward: `if limit and n >= limit` -> `n > limit` (one id too many under a limit)         caught
+  2 nbest_ascending: ASC sentinel replaced by DESC (missing ids occupy the first `limit` places;
+    needs a missing id and a limit that the sortable ids would have filled)                          caught
+  3 nbest_descending: DESC sentinel replaced by ASC (same in reverse)                                caught
+  4 _timsort: `sorted(.., reverse=True)` -> `sorted(..)[::-1]` (descending sort no longer stable; only
+    visible with a tie and sort_type STABLE/timsort: replay = two docs of equal value)              caught
+  5 _timsort: `return` on a filled limit -> `break` (Unsortable raised although the limit was filled) caught
+  6 sort(): empty index no longer raises Unsortable (needs an empty index and raise_unsortable)      caught
+  7 nbest_ascending: `sorted(islice(..))` -> `list(islice(..))` (unsorted start of the insort loop)  caught
+  - nbest_ascending: `los = result[-1]` dropped after `pop()`: NOT a semantic change (a stale, larger
+    `los` only makes the loop insort-and-pop elements it could have skipped) - check stays green, as
+    the property demands; likewise changing which algorithm the heuristics choose changes nothing.
 """
 from lib.core import exc_name, idset
 
